@@ -285,7 +285,7 @@ ProvClasses(x) ==
                        ELSE {"exact", "alt", "half", "double", "zero", "huge"}
     [] x.pc = "pk.n" -> {"exact", "double", "odd", "zero", "huge", "big"}
     [] x.pc = "pk.es" -> {"exact", "m1", "p1", "zero", "huge"}
-    [] x.pc = "pk.len" -> LenC
+    [] x.pc = "pk.len" -> LenC \cup {"over"}   \* "over": a CONSISTENT encoding of n+1 coefficients
     [] x.pc = "pk.coef" -> {"canon", "ger", "gerlast", "topzero"}
     [] x.pc = "pk.dom" -> {"canon", "othersize", "nonpow2", "hugesize", "maxsize", "logwrong", "badfield", "gerfield"}
     [] x.pc = "pk.ev" -> {"canon", "ger"}
@@ -357,8 +357,8 @@ ProvDo(x, c) ==
     [] x.pc = "pk.len" ->
          IF ~CanRead(x, 8) THEN ErrS(x, "BadLength")
          ELSE IF x.mis THEN ErrS(x, "InvalidData")
-         ELSE LET d == LenVal(N, c)
-              IN IF d > x.n THEN ErrS(x, "InvalidData")
+         ELSE LET d == IF c = "over" THEN N + 1 ELSE LenVal(N, c)
+              IN IF d > x.n THEN ErrS(x, "InvalidData")      \* degree bound of the fixed polynomials
                  ELSE IF CMul(d, SC) = None THEN ErrS(x, "NotEnoughBytes")
                  ELSE IF d = 0 THEN [x EXCEPT !.cur = @ + 8, !.pc = "pk.dom", !.mis = TRUE]   \* buffer left intact
                  ELSE [x EXCEPT !.cur = @ + 8, !.pc = "pk.coef", !.req = d]
@@ -506,5 +506,6 @@ Terminates == <>(s.st # "run")
 
 Scenario == [m |-> s.m, toks |-> hist, pred |-> s.st, why |-> s.why, steps |-> s.steps,
              alloc |-> s.alloc, total |-> s.total, skipped |-> s.skipped]
-EmitScenarios == (Emit /\ s.st # "run") => PrintT(<<"SCEN", ToJson(Scenario)>>)
+\* one STRING per line (TLC wraps long tuples)
+EmitScenarios == (Emit /\ s.st # "run") => PrintT("SCEN|" \o ToJson(Scenario))
 =============================================================================
